@@ -199,6 +199,18 @@ func goldenPlan() []GoldenEntry {
 			add("NONE", en, gen.KSkewed, n, 65536, 64, false)
 		}
 	}
+	// TPAQ/TPAQX size the predictor's tables from the declared block size (1/4/16/64 MiB tiers) and from the
+	// actual block length (1/4/8/16/32 MiB tiers): one block inside the lower tiers of each, and small blocks under
+	// large declared block sizes (cheap to decode: the big tables are allocated but hardly touched)
+	for _, en := range []string{"TPAQ", "TPAQX"} {
+		for _, n := range []int{1<<20 + 4096, 2<<20 + 4096, 4<<20 + 4096} {
+			add("NONE", en, gen.KText, n, uint(n+15)&^15, 32, false)
+		}
+		for _, bs := range []uint{1 << 20, 4 << 20, 16 << 20, 64 << 20} {
+			add("NONE", en, gen.KXML, 50000, bs, 0, false)
+		}
+	}
+	add("NONE", "TPAQ", gen.KText, 8<<20+4096, 8<<20+4096, 0, false)
 	return es
 }
 
@@ -276,6 +288,9 @@ func TestC10(t *testing.T) {
 	for i, e := range idx {
 		if !r.Mine(i) {
 			continue
+		}
+		if !r.Thorough() && e.Cfg.Entropy == "TPAQX" && e.Cfg.BlockSize >= 64<<20 {
+			continue // 1 GiB of state tables for one small block: thorough tier only
 		}
 		c := C10Case{Cfg: e.Cfg, Data: e.Data, ReadJobs: uint(1 + i%4), Golden: e.File}
 		st, err := os.ReadFile(filepath.Join(goldenDir(r), e.File))
